@@ -18,3 +18,7 @@ package flight
 //@ func Cache.SessionHash
 //@ noinline
 //@ end
+
+//@ func CommitSRTP
+//@ noinline
+//@ end
